@@ -2,15 +2,19 @@
 # Applies every seeded change of /verif/seeded to /repo in turn, runs the quick check of its property and
 # undoes it: prints one line per change (CAUGHT = the check exits 1 with a VIOLATION line).
 # Usage: tools/seeded_run.sh [id ...]        (never leaves /repo modified; refuses to start on a dirty /repo)
-cd /verif || exit 2
-if [ -n "$(git -C /repo status --porcelain)" ]; then echo "/repo is not clean"; exit 2; fi
+# Inside `vp run --with-repo` it works on the run's snapshots ($VP_RUN_REPO and the snapshot of /verif) instead.
+REPO=${VP_RUN_REPO:-/repo}
+VERIF=$(cd "$(dirname "$0")/.." && pwd)
+cd "$VERIF" || exit 2
+if [ -n "${VP_RUN_REPO:-}" ]; then sed -i "s#\"/repo/#\"$VP_RUN_REPO/#" sim/Cargo.toml; fi
+if [ -n "$(git -C "$REPO" status --porcelain)" ]; then echo "$REPO is not clean"; exit 2; fi
 ids=("$@"); [ ${#ids[@]} -eq 0 ] && ids=($(ls -d seeded/*/ | xargs -n1 basename))
 for id in "${ids[@]}"; do
-  patch=/verif/seeded/$id/patch.diff; [ -f /verif/seeded/$id/patch.rebased.diff ] && patch=/verif/seeded/$id/patch.rebased.diff
-  prop=$(python3 -c "import json;print(json.load(open('/verif/seeded/$id/meta.json'))['property'])")
-  if ! git -C /repo apply "$patch" 2>/dev/null; then echo "$id: patch does not apply"; continue; fi
+  patch=$VERIF/seeded/$id/patch.diff; [ -f $VERIF/seeded/$id/patch.rebased.diff ] && patch=$VERIF/seeded/$id/patch.rebased.diff
+  prop=$(python3 -c "import json;print(json.load(open('$VERIF/seeded/$id/meta.json'))['property'])")
+  if ! git -C "$REPO" apply "$patch" 2>/dev/null; then echo "$id: patch does not apply"; continue; fi
   out=$(VERIF_REPLAY_DIR=/dev/shm/seeded-replays ./check "$prop" quick 2>&1); code=$?
-  git -C /repo checkout -- .
+  git -C "$REPO" checkout -- .
   n=$(echo "$out" | grep -c "^VIOLATION property=$prop")
   first=$(echo "$out" | grep "^# violation" | head -1 | cut -c1-160)
   if [ $code -eq 1 ] && [ "$n" -gt 0 ]; then echo "$id: CAUGHT by ./check $prop quick ($n VIOLATION lines) $first"; else echo "$id: MISSED by ./check $prop quick (exit $code)"; fi
